@@ -72,13 +72,22 @@ func name(rng *rand.Rand, kind byte, n int) string {
 	return fmt.Sprintf("%c%02d", kind, rng.Intn(n))
 }
 
-// keys: 0-3 directory segments "dNN" followed by a file segment "fNN.ext"; all
-// segments of one kind have the same length, so no sibling is a string prefix of another.
+// keys: 0-3 directory segments "dNN" followed by a file segment "fNN.pem"; one
+// time in four the last directory-level segment is a "bNN" name that is stored
+// itself and/or has a file below it (a key that is both a stored key and the
+// parent of deeper keys). Segments of one kind have the same length and kinds
+// differ in their first letter, so no sibling is a string prefix of another.
 func genKey(rng *rand.Rand) string {
 	depth := rng.Intn(4)
 	segs := []string{}
 	for i := 0; i < depth; i++ {
 		segs = append(segs, name(rng, 'd', 3))
+	}
+	if rng.Intn(4) == 0 {
+		segs = append(segs, name(rng, 'b', 2))
+		if rng.Intn(2) == 0 {
+			return strings.Join(segs, "/") // the "bNN" key itself
+		}
 	}
 	segs = append(segs, name(rng, 'f', 4)+".pem")
 	return strings.Join(segs, "/")
@@ -225,6 +234,12 @@ func partA(r *ev.Run) {
 				got, lerr := st.Load(ctx, key)
 				ex := st.Exists(ctx, key)
 				info, serr := st.Stat(ctx, key)
+				if len(model.under(key)) > 0 {
+					// the key is (also) the parent of deeper keys: what reading it means is not pinned by the statement
+					r.Case("load/file-and-directory-unjudged")
+					r.Count("unjudged_reads_of_file_and_directory_keys", 1)
+					continue
+				}
 				r.Case("load/" + state)
 				wit := map[string]any{"key": key, "state": state, "load_err": fmt.Sprint(lerr), "exists": ex, "stat_err": fmt.Sprint(serr)}
 				if exists {
@@ -267,15 +282,23 @@ func partA(r *ev.Run) {
 				want := model.children(dir)
 				got, err := st.List(ctx, arg, false)
 				wit := map[string]any{"prefix": arg, "got": got, "want": want, "list_err": fmt.Sprint(err)}
-				nFiles, nDirs := 0, 0
+				nFiles, nDirs, nBoth := 0, 0, 0
 				for _, c := range want {
-					if _, isFile := model[c]; isFile {
+					_, isFile := model[c]
+					isDir := len(model.under(c)) > 0
+					switch {
+					case isFile && isDir:
+						nBoth++
+					case isFile:
 						nFiles++
-					} else {
+					default:
 						nDirs++
 					}
 				}
-				r.Case(fmt.Sprintf("list/depth=%d/files=%d/dirs=%d/slash=%v", strings.Count(dir, "/")+btoi(dir != ""), min(nFiles, 3), min(nDirs, 3), arg != dir))
+				if nBoth > 0 {
+					r.Count("lists_with_file_and_directory_child", 1)
+				}
+				r.Case(fmt.Sprintf("list/depth=%d/files=%d/dirs=%d/both=%d/slash=%v", strings.Count(dir, "/")+btoi(dir != ""), min(nFiles, 3), min(nDirs, 3), min(nBoth, 2), arg != dir))
 				if err != nil {
 					if len(want) == 0 && errors.Is(err, fs.ErrNotExist) {
 						continue
@@ -698,8 +721,8 @@ func partB(r *ev.Run) {
 func main() {
 	r := ev.Start("C49", "exploration")
 	r.SetMaxSamples(6)
-	r.SetRule("files: per scenario (1-3 storage instances over one real single-node chord ring on kv/memory) a seeded history of Store/Delete/Load+Exists+Stat/List over keys of 0-3 directory segments dNN and a file segment fNN.pem with non-empty values, distinct by (operation, overwrite / key state stored|deleted|never, depth, number of file and directory children 0..3+, trailing slash); locks: scenarios {handoff, lost-renewals (a holder's renewals fail while it keeps holding), two-keys} x 2-4 instances x lease TTL {1s,2s}, each instance locking, holding 0.3-0.9 TTL and unlocking in rounds, distinct by (kind, instances, ttl, contention observed, takeover after possible expiry observed)")
-	r.Assume("keys are files below directories (no key is both), segments of one kind have equal length (siblings that are string prefixes of each other are outside the statement), values are non-empty; listing a file or a missing directory is not judged beyond 'empty or fs.ErrNotExist'")
+	r.SetRule("files: per scenario (1-3 storage instances over one real single-node chord ring on kv/memory) a seeded history of Store/Delete/Load+Exists+Stat/List over keys of 0-3 directory segments dNN and a file segment fNN.pem, one in four through a bNN segment that is itself stored and/or has a file below it (a child that is both a stored key and a parent), non-empty values, distinct by (operation, overwrite / key state stored|deleted|never, depth, number of file / directory / file-and-directory children, trailing slash); locks: scenarios {handoff, lost-renewals (a holder's renewals fail while it keeps holding), two-keys} x 2-4 instances x lease TTL {1s,2s}, each instance locking, holding 0.3-0.9 TTL and unlocking in rounds, distinct by (kind, instances, ttl, contention observed, takeover after possible expiry observed)")
+	r.Assume("segments of one kind have equal length (siblings that are string prefixes of each other are outside the statement), values are non-empty; a key that is both stored and the parent of deeper keys is judged only as a child in its parent's non-recursive listing (exactly once); Load/Exists/Stat of such a key and listing it as the prefix are not judged; a missing directory may list empty or fail with fs.ErrNotExist")
 	r.Assume("lock oracle: instance A certainly holds during [x,y] iff its Lock returned before x, its Unlock was not called by y and the windows [return_i, call_i + floor_seconds(ttl)) of its successful Acquire/Renew calls cover [x,y]; anything else (over-slept or failed renewal) counts as 'lease may have expired' and is not judged")
 	r.Assume("the DHT is a single-node ring (no remote hops, no ownership change during the history)")
 	if r.ReplayCase == "" || strings.HasPrefix(r.ReplayCase, "A/") {
